@@ -38,6 +38,7 @@ package bal_slb
 
 import (
 	"fmt"
+	"math/bits"
 	"math/rand"
 	"sort"
 	"sync"
@@ -489,19 +490,34 @@ func (brr *BalanceRR) stickyBalance(key []byte) (*backend.BfeBackend, error) {
 func compLCWeight(a, b *BackendRR) int {
 	// compare a.backend.ConnNum() / a.weight and b.backend.ConnNum() / b.weight
 	// to avoid compare floating num, both multipli a.weight * b.weight
-	ret := a.backend.ConnNum()*b.weight - b.backend.ConnNum()*a.weight
+	// (128-bit products, as ConnNum() * weight may overflow int)
+	aHi, aLo := mulInt(a.backend.ConnNum(), b.weight)
+	bHi, bLo := mulInt(b.backend.ConnNum(), a.weight)
 
 	// a.backend.ConnNum() / a.weight > b.backend.ConnNum() / b.weight
-	if ret > 0 {
+	if aHi > bHi || (aHi == bHi && aLo > bLo) {
 		return 1
 	}
 
 	// a.backend.ConnNum() / a.weight == b.backend.ConnNum() / b.weight
-	if ret == 0 {
+	if aHi == bHi && aLo == bLo {
 		return 0
 	}
 
 	return -1
+}
+
+// mulInt returns the 128-bit product of x and y: signed high 64 bits
+// and unsigned low 64 bits.
+func mulInt(x, y int) (int64, uint64) {
+	hi, lo := bits.Mul64(uint64(x), uint64(y))
+	if x < 0 {
+		hi -= uint64(y)
+	}
+	if y < 0 {
+		hi -= uint64(x)
+	}
+	return int64(hi), lo
 }
 
 func (brr *BalanceRR) Len() int {
